@@ -253,7 +253,7 @@ fn case_buffered(cx: &mut Cx, cs: u64) {
     let udp = r.chance(1, 2);
     let faults = cx.prop == "C07" || (cx.prop == "C14" && r.chance(1, 2));
     let default_cap = r.chance(1, 5);
-    let cap = if default_cap { 512 } else { *r.pick(&[0usize, 1, 8, 40, 100, 512, 1432, 9000]) };
+    let cap = if default_cap { 512 } else if !udp && r.chance(1, 6) { *r.pick(&[66000usize, 70000, 100000]) } else { *r.pick(&[0usize, 1, 8, 40, 100, 512, 1432, 9000]) };
     let dir = fresh_dir();
     cx.rep.eval();
     let udp_recv = UdpSocket::bind("127.0.0.1:0").unwrap();
@@ -313,7 +313,11 @@ fn case_buffered(cx: &mut Cx, cs: u64) {
             }
         }
         let mark = interpose::mark();
-        let (op, res, ioerr) = if r.chance(1, 8) {
+        let (op, res, ioerr) = if r.chance(1, 12) {
+            // a telemetry query must not write
+            let _ = panics::guard(|| sink.stats());
+            (Op::Query, Res::OkUnit, None)
+        } else if r.chance(1, 8) {
             fill_hint = 0;
             let x = panics::guard(|| sink.flush());
             let e = if let Ok(Err(e)) = &x { e.raw_os_error() } else { None };
@@ -330,7 +334,7 @@ fn case_buffered(cx: &mut Cx, cs: u64) {
                 6 => cap + r.range(1, 50) as usize,
                 _ => r.range(0, (cap / 3).max(3) as u64) as usize,
             }
-            .min(20000);
+            .min(if udp { 20000 } else { 150000 });
             let req = len + 1;
             if req <= cap {
                 if req > cap - fill_hint.min(cap) {
@@ -376,7 +380,7 @@ fn case_buffered(cx: &mut Cx, cs: u64) {
             steps
                 .iter()
                 .map(|s| {
-                    jobj! {"op" => match &s.op { Op::Emit(m) => format!("emit({} bytes)", m.len()), Op::Flush => "flush".into(), Op::Drop => "drop".into() },
+                    jobj! {"op" => match &s.op { Op::Emit(m) => format!("emit({} bytes)", m.len()), Op::Flush => "flush".into(), Op::Drop => "drop".into(), Op::Query => "stats".into() },
                     "sendto" => Json::Arr(s.attempts.iter().map(|a| Json::Str(format!("{:?} -> {:?}", a.bytes.as_ref().map(|b| clip_bytes(b, 50)), a.out))).collect()),
                     "result" => format!("{:?}", s.res)}
                 })
@@ -514,7 +518,19 @@ fn case_stats(cx: &mut Cx, cs: u64, enum_pattern: Option<Vec<bool>>) {
         }
     }
     let done = Arc::new(AtomicU64::new(0));
-    let queue = if through_queue { Some(QueuingMetricSink::from(Fwd(base.clone(), done.clone()))) } else { None };
+    // every way of building the wrapper must hand the wrapped sink's figures through
+    let qvariant = r.below(4);
+    let queue = if through_queue {
+        let f = Fwd(base.clone(), done.clone());
+        Some(match qvariant {
+            0 => QueuingMetricSink::from(f),
+            1 => QueuingMetricSink::with_capacity(f, 100_000),
+            2 => QueuingMetricSink::builder().with_error_handler(|_e| {}).build(f),
+            _ => QueuingMetricSink::builder().with_capacity(100_000).with_error_handler(|_e| {}).build(f),
+        })
+    } else {
+        None
+    };
     let mark = interpose::mark();
     // faults: an enumerated pattern (single thread), or random per-call failures
     if let Some(p) = &enum_pattern {
@@ -553,7 +569,8 @@ fn case_stats(cx: &mut Cx, cs: u64, enum_pattern: Option<Vec<bool>>) {
         joins.push(std::thread::spawn(move || {
             for k in 0..per_thread {
                 let len = if big && tr.chance(1, 40) { 65600 } else { tr.range(1, 90) as usize };
-                let m = format!("t{}.k{}.{}", t, k, "z".repeat(len));
+                // now and then the empty string: an unbuffered sink really sends an empty datagram for it
+                let m = if tr.chance(1, 25) { String::new() } else { format!("t{}.k{}.{}", t, k, "z".repeat(len)) };
                 match target.emit(&m) {
                     Ok(_) => {
                         okc.fetch_add(1, Ordering::Relaxed);
@@ -626,7 +643,7 @@ fn case_stats(cx: &mut Cx, cs: u64, enum_pattern: Option<Vec<bool>>) {
     if threads > 1 {
         cx.rep.obs("comparisons_with_concurrent_emitters", 1);
     }
-    cx.rep.distinct(&format!("{}|T{}|q{}|drop{}|{}", label, threads, through_queue, if drop_n == 0 { 0 } else if drop_n < 10 { 1 } else { 2 }, enum_pattern.as_ref().map(|p| p.iter().map(|b| if *b { '1' } else { '0' }).collect::<String>()).unwrap_or_default()));
+    cx.rep.distinct(&format!("{}|T{}|q{}v{}|drop{}|{}", label, threads, through_queue, qvariant, if drop_n == 0 { 0 } else if drop_n < 10 { 1 } else { 2 }, enum_pattern.as_ref().map(|p| p.iter().map(|b| if *b { '1' } else { '0' }).collect::<String>()).unwrap_or_default()));
     if cx.rep.want_sample() {
         cx.rep.sample(|| trace);
     }
@@ -634,6 +651,77 @@ fn case_stats(cx: &mut Cx, cs: u64, enum_pattern: Option<Vec<bool>>) {
     stop.store(true, Ordering::Relaxed);
     let _ = drain.0.join();
     let _ = drain.1.join();
+    let _ = std::fs::remove_dir_all(dir);
+}
+
+/// Many threads hammer ONE unbuffered sink while every send fails at once in the interposer's lock-free fast path:
+/// nothing but the sink's own bookkeeping is contended. Afterwards packets_dropped / bytes_dropped must equal the
+/// attempts counted by the interposer and the emits that returned Err.
+fn case_contention(cx: &mut Cx, cs: u64) {
+    let mut r = Rng::new(cs);
+    let udp = r.chance(1, 2);
+    let threads = *r.pick(&[4usize, 8, 12, 16]);
+    let per = r.range(8000, 30000) as usize;
+    let dir = fresh_dir();
+    cx.rep.eval();
+    let sink: Arc<dyn MetricSink + Send + Sync> = if udp {
+        let s = UdpSocket::bind("127.0.0.1:0").unwrap();
+        Arc::new(UdpMetricSink::from("127.0.0.1:9", s).unwrap())
+    } else {
+        Arc::new(UnixMetricSink::from(dir.join("nobody.sock"), UnixDatagram::unbound().unwrap()))
+    };
+    let before = sink.stats();
+    interpose::FAST_ATTEMPTS.store(0, Ordering::SeqCst);
+    interpose::FAST_BYTES.store(0, Ordering::SeqCst);
+    interpose::FAST_FAIL_ERRNO.store(ENOBUFS, Ordering::SeqCst);
+    let barrier = Arc::new(std::sync::Barrier::new(threads));
+    let mut joins = Vec::new();
+    for t in 0..threads {
+        let sink = sink.clone();
+        let barrier = barrier.clone();
+        joins.push(std::thread::spawn(move || {
+            let m = format!("contend.t{}:1|c", t);
+            let mut errs = 0u64;
+            let mut bytes = 0u64;
+            barrier.wait();
+            for _ in 0..per {
+                if sink.emit(&m).is_err() {
+                    errs += 1;
+                    bytes += m.len() as u64;
+                }
+            }
+            (errs, bytes)
+        }));
+    }
+    let mut errs = 0u64;
+    let mut bytes = 0u64;
+    for j in joins {
+        let (e, b) = j.join().unwrap();
+        errs += e;
+        bytes += b;
+    }
+    interpose::FAST_FAIL_ERRNO.store(0, Ordering::SeqCst);
+    let attempts = interpose::FAST_ATTEMPTS.load(Ordering::SeqCst);
+    let abytes = interpose::FAST_BYTES.load(Ordering::SeqCst);
+    let st = sink.stats();
+    let label = if udp { "UdpMetricSink" } else { "UnixMetricSink" };
+    let trace = jobj! {"sink" => label, "threads" => threads, "emits_per_thread" => per, "attempts_seen_by_interposer" => attempts, "emits_err" => errs, "stats" => format!("{:?}", st)};
+    cx.rep.obs("contention_runs", 1);
+    cx.rep.obs("contended_updates", attempts);
+    cx.rep.distinct(&format!("contention|{}|T{}", label, threads));
+    if st.packets_dropped - before.packets_dropped != attempts || st.bytes_dropped - before.bytes_dropped != abytes || errs != attempts || bytes != abytes || st.packets_sent != before.packets_sent {
+        cx.violation(
+            "C14",
+            "exact-under-concurrency",
+            "lost-updates",
+            format!("{}: {} threads made {} refused sends ({} bytes); stats show packets_dropped={} bytes_dropped={} packets_sent={}", label, threads, attempts, abytes, st.packets_dropped, st.bytes_dropped, st.packets_sent),
+            trace.clone(),
+            cs,
+        );
+    }
+    if cx.rep.want_sample() {
+        cx.rep.sample(|| trace);
+    }
     let _ = std::fs::remove_dir_all(dir);
 }
 
@@ -683,6 +771,7 @@ fn main() {
                     "unbuffered" => case_unbuffered(&mut cx, cs),
                     "buffered" => case_buffered(&mut cx, cs),
                     "stats" => case_stats(&mut cx, cs, None),
+                    "contention" => case_contention(&mut cx, cs),
                     m => {
                         eprintln!("unknown mode {}", m);
                         std::process::exit(2);
